@@ -1,5 +1,5 @@
-\* hashdb, exhaustive (thorough): 2 tries of height 2 (4 keys, 7 paths each), <= 3 updates from any known state
-\* (forks are free: the database does not track state roots), Commit / cache warm-up / restart anywhere
+\* hashdb, exhaustive, thorough: as quick with all 4 keys
+\* measured: 40 853 distinct states, depth 8 (23 s, 4 workers); with 4 updates: 992 199 states (12 min)
 CONSTANTS
   H = 2
   MaxV = 1
